@@ -10,7 +10,7 @@ Lemma agrees_run_exposure faithful run prior p n debug t nodes :
   agrees_run faithful run prior p n (Exposure debug) (Ran t nodes) = true ->
   t = map obs_of (fst (run debug p n)).
 Proof.
-  unfold agrees_run. intro H. rewrite !andb_true_iff in H. destruct H as [[_ H] _].
+  unfold agrees_run. intro H. rewrite !andb_true_iff in H. destruct H as [H _].
   apply trace_eqb_eq in H. exact H.
 Qed.
 
@@ -19,8 +19,8 @@ Lemma agrees_run_observation faithful run prior p n runs t nodes :
   t = flat_map (fun os => map obs_of (fst (run false (apply_overrides p os) n))) runs.
 Proof. unfold agrees_run. intro H. apply trace_eqb_eq in H. exact H. Qed.
 
-Lemma agrees_run_never_failed_spec run prior p n m cls :
-  agrees_run false run prior p n m (Failed cls) = false.
+Lemma agrees_run_never_failed faithful run prior p n m cls :
+  agrees_run faithful run prior p n m (Failed cls) = false.
 Proof. destruct m as [d| |]; reflexivity. Qed.
 
 (* the run function of the second accepted reading: no model can change its configuration *)
